@@ -6,7 +6,7 @@ from props import engine_common as ec
 from props import c01
 
 PID = "C03"
-LEAN_MODULES = ["QbiceVerif.Props.C03", "QbiceVerif.Props.NonVacuity.C03"]
+LEAN_MODULES = ["QbiceVerif.Props.C03", "QbiceVerif.Props.NonVacuity.C03", "QbiceVerif.Props.NonVacuity.C03Total"]
 DRIVER = "drv_engine"
 HARNESS_BIN = "engine"
 PARTIAL = [
